@@ -3,6 +3,8 @@
 //
 //	tvhelper file <in.xgo> <out.go>
 //	tvhelper dir  <dir with .xgo/.gox files> <out.go>
+//	tvhelper gopstyle <in.go> <out.go>   Go source -> x/format.GopstyleSource -> XGo text (written to
+//	                                     <out.go>.xgo.txt) -> compiler -> Go
 package main
 
 import (
@@ -10,6 +12,7 @@ import (
 	"os"
 
 	"github.com/goplus/xgo/x/build"
+	xformat "github.com/goplus/xgo/x/format"
 )
 
 func main() {
@@ -28,6 +31,19 @@ func main() {
 			os.Exit(1)
 		}
 		data, err = ctx.BuildFile(os.Args[2], src)
+	case "gopstyle":
+		src, e := os.ReadFile(os.Args[2])
+		if e != nil {
+			fmt.Fprintln(os.Stderr, e)
+			os.Exit(1)
+		}
+		styled, e := xformat.GopstyleSource(src, os.Args[2])
+		if e != nil {
+			fmt.Fprintln(os.Stderr, "compile error: GopstyleSource:", e)
+			os.Exit(1)
+		}
+		os.WriteFile(os.Args[3]+".xgo.txt", styled, 0644)
+		data, err = ctx.BuildFile(os.Args[2]+".xgo", styled)
 	case "dir":
 		data, err = ctx.BuildDir(os.Args[2])
 	default:
